@@ -41,6 +41,13 @@ ASSUMPTIONS = [
     "model (C03_roundtrip_model, scope.mser) for IR version >= 10, their attributes / opset imports / doc and "
     "the IR < 10 experimental value-info format are oracle-only",
     "graphs nest as a tree (a Graph object shared between two attributes is outside the model)",
+    "OUTSIDE the property as checked (hypotheses of the theorems and gate of the isomorphism oracle): a graph that "
+    "lists as output a value it does not define (e.g. sub = Graph([], [y_outer]) with y_outer produced in the "
+    "enclosing graph): the reloaded subgraph gets a fresh producer-less output, sharing is lost; valid ONNX "
+    "requires a subgraph output to be produced in the subgraph. These cases are generated, run through purity / "
+    "determinism / model comparison, and counted as serializable=graph output not defined in its graph",
+    "C03_pure: the model's only effect is the tensor-name write; that the real to_proto mutates nothing else "
+    "rests on the deep-snapshot oracle, not on the theorem",
     "the oracle's gate (serializable_reason) also admits a nested graph that shadows a name of an enclosing "
     "graph when every reference still resolves innermost-first to the referenced value; the hypothesis of "
     "C03_roundtrip (names unique per scope chain) excludes shadowing, C03_roundtrip_reloadable (hypothesis: "
@@ -418,7 +425,25 @@ class IRGen:
         for _ in range(rng.choice([0, 1, 2, 4, 8, 16])):
             self.edit(m)
         self.shadow(m)
+        self.quantization_annotations(m)
         return self.reload_and_edit_tensor_metadata(m)
+
+    def quantization_annotations(self, m):
+        """quantization annotations (Value.meta['quant_parameter_tensor_names']) on some named values of the main
+        graph tree.  Separate stream: recorded gen_seeds unchanged."""
+        rng2 = random.Random(f"quant-{self.k}")
+        if rng2.random() >= 0.2:
+            return
+        n = 0
+        for g in sc.iter_graph_tree(m.graph):
+            vals = list(g.inputs) + list(g.initializers.values()) + [o for nd in g for o in nd.outputs]
+            for v in vals:
+                if v.name and rng2.random() < 0.25:
+                    v.meta["quant_parameter_tensor_names"] = rng2.choice([
+                        {"SCALE_TENSOR": "s_" + v.name}, {"SCALE_TENSOR": "s", "ZERO_POINT_TENSOR": "z"}, {"k": ""}])
+                    n += 1
+        if n:
+            self.note("quantization_annotations", n)
 
     def reload_and_edit_tensor_metadata(self, m):
         """sometimes: give tensors metadata, take the model through the proto once (its tensors are then backed
@@ -666,11 +691,14 @@ def diff_case_model(part, out: dict, case, model, p1, err, m2) -> None:
     if p1 is None:
         if out.get("ser_ok"):
             r = sc.root_cause(err)
-            if isinstance(r, TypeError) and "NoneType" in str(r):
+            if isinstance(r, TypeError) and ("NoneType" in str(r) or "bad argument type" in str(r)):
                 part.disagree("to_proto raises on a None name, model (with functions) serializes", case, True,
                               f"raised {r!s:.80}")
+            elif "Cannot serialize a ShardingSpec" in str(r) or "Unsupported attribute type: UNDEFINED" in str(r):
+                part.count("to_proto_raised_outside_model=" + str(r)[:40])
             else:
-                part.count("to_proto_raised_outside_model=" + type(r).__name__)
+                part.disagree("to_proto raises for an unexplained reason, model (with functions) serializes", case,
+                              True, f"{type(r).__name__}: {r!s:.100}")
         return
     if not out.get("ser_ok"):
         part.disagree("model (with functions) serialization raises (None name), to_proto returns", case, False, True)
@@ -725,7 +753,21 @@ def diff_case_model(part, out: dict, case, model, p1, err, m2) -> None:
                     what += f" ({k})"
             part.disagree(what, case, mod2, real2)
     elif out.get("deser_ok"):
-        part.count("from_proto_raised_outside_model")
+        part.disagree("from_proto(to_proto(m)) raises, the model (with functions) deserializes its own serialization",
+                      case, "ok", _reload_error(p1))
+
+
+def _reload_error(p1) -> str:
+    """why from_proto raised on the serialized model: wrapper chain + root cause"""
+    from onnx_ir import serde
+
+    try:
+        serde.deserialize_model(p1)
+    except Exception as e:  # noqa: BLE001
+        r = sc.root_cause(e)
+        where = "deserialize_function" if sc.error_chain_mentions(e, "Error calling deserialize_function") else sc.innermost_wrapper(e)
+        return f"{where}: {type(r).__name__}: {r!s:.100}"
+    return "did not raise on replay"
 
 
 def diff_case(part, out: dict, case, flags, world0, model, p1, err, m2) -> None:
@@ -748,10 +790,16 @@ def diff_case(part, out: dict, case, flags, world0, model, p1, err, m2) -> None:
     if p1 is None:
         if out.get("ser_ok"):
             r = sc.root_cause(err)
-            if isinstance(r, TypeError) and "NoneType" in str(r) and not sc.error_chain_mentions(err, "serialize_function_into"):
+            none_name = isinstance(r, TypeError) and ("NoneType" in str(r) or "bad argument type" in str(r))
+            if sc.error_chain_mentions(err, "serialize_function_into"):
+                part.count("to_proto_raised_in_function")  # functions are not part of THIS request (scope.mser covers them)
+            elif none_name:
                 part.disagree("to_proto raises on a None name, model serializes", case, True, f"raised {r!s:.80}")
+            elif "Cannot serialize a ShardingSpec" in str(r) or "Unsupported attribute type: UNDEFINED" in str(r):
+                part.count("to_proto_raised_outside_model=" + str(r)[:40])  # device configurations / attribute payloads
             else:
-                part.count("to_proto_raised_outside_model=" + type(r).__name__)
+                part.disagree("to_proto raises for an unexplained reason, model serializes", case, True,
+                              f"{type(r).__name__}: {r!s:.100}")
         return
     if not out.get("ser_ok"):
         part.disagree("model serialization raises (None name), to_proto returns", case, False, True)
@@ -810,7 +858,12 @@ def diff_case(part, out: dict, case, flags, world0, model, p1, err, m2) -> None:
                     what += f" ({k})"
             part.disagree(what, case, mod2, real2)
     elif m2 is None and out.get("deser_ok"):
-        part.count("from_proto_raised_outside_model")
+        why = _reload_error(p1)
+        if "deserialize_function" in why:
+            part.count("from_proto_raised_in_function")  # functions are not part of THIS request (scope.mser covers them)
+        else:
+            part.disagree("from_proto(to_proto(m)) raises, the model deserializes its own serialization", case,
+                          "ok", why)
 
 
 # --------------------------------------------------------------------------- worker / run
